@@ -52,8 +52,9 @@ def gen_program(rng, M, style):
     n = rng.choice([1, 2, 2, 3]) if style in ("periodic", "int") else rng.choice([2, 2, 3])
     step = [2 if style == "half" else 1] * m                      # lattice units of theta per lattice step of x_i
     budget = (N - 1) // 4                                          # sum_k |c_ki| * step_i * 4 < N  (band limit strictly below Nyquist)
-    ctx = ["g1", "r1"] + (["g2"] if n >= 2 else [])
-    ops = devsim.random_circuit(rng, n, M, rng.randint(1, 2), ctx)
+    constfree = rng.random() < 0.5                                 # no fixed-angle parametrised gates around the encoding gates
+    ctx = ["g1"] + ([] if constfree else ["r1"]) + (["g2"] if n >= 2 else [])
+    ops = devsim.random_circuit(rng, n, M, rng.randint(1, 3), ctx)
     used = [Fraction(0)] * m
     n_enc = rng.randint(2, 5)
     for _ in range(n_enc):
@@ -91,6 +92,11 @@ def gen_program(rng, M, style):
     words = [list(w) for w in itertools.product(range(4), repeat=n) if any(w)]
     return {"M": M, "n": n, "m": m, "ops": ops, "step": step, "bound": [u for u in used], "pws": rng.sample(words, 2),
             "base": [rng.randrange(N) for _ in range(m)], "style": style}
+
+
+def const_class(prog):
+    """request-level class: does the program contain fixed-angle parametrised gates (non-trainable tape parameters)?"""
+    return "with-constant-parameter-gates" if any("enc" not in g and g["p"] for g in prog["ops"]) else "no-constant-parameter-gates"
 
 
 def sig(prog):
@@ -189,6 +195,8 @@ def run_level(ctx, rng, M, styles, n2d, stats):
             if p is not None:
                 progs.append(p)
                 break
+    for p in progs:
+        ctx.inc("programs_" + const_class(p))
     # ------------------------------------------------------------------ exact scans: 1-D (all N points of a period of x_i)
     tcases, scans = [], []
     for pi, p in enumerate(progs):
@@ -315,6 +323,7 @@ def run_level(ctx, rng, M, styles, n2d, stats):
                 raise lib.MachineryError("SpectrumSupport control: wrong coefficient for cos")
     ctx.inc("negative_controls_rejected")
     coefs = {}            # (scan, oi) -> numpy array of exact coefficients indexed [k1][k2]
+    supports = {}         # (scan, oi) -> exact support of a 1-D scan (indices)
     for k, tm in enumerate(tmeta):
         j = out[k]
         sc = scans[tm["scan"]]
@@ -322,6 +331,7 @@ def run_level(ctx, rng, M, styles, n2d, stats):
         if j["v"] == "bad-trace" or not j["inv"]:
             raise lib.MachineryError(f"SpectrumSupport: {j['v']} / inverse transform failed on a recorded scan")
         size = sc["dims"][0] * sc["dims"][1]
+        supports[(tm["scan"], tm["oi"])] = list(j["sa"])
         coefs[(tm["scan"], tm["oi"])] = np.array([[lib.ring_to_complex(e, j["K"], M) for e in row] for row in j["coef"]]) / size
         if tm["tool"] is None:
             continue
@@ -329,7 +339,7 @@ def run_level(ctx, rng, M, styles, n2d, stats):
         nz = len([x for x in j["sa"] if x]) + len([x for x in j["sb"] if x])
         if j["v"] != "ok":
             true_f = [x / tm["per2pi"] for x in j["sa"]] if sc["kind"] == "1d" else {"x0": j["sa"], "x1": j["sb"]}
-            ctx.violate(f"{tm['tool']}:undeclared-frequency:{sig(p)}",
+            ctx.violate(f"{tm['tool']}:undeclared-frequency:{const_class(p)}:{sig(p)}",
                         f"{j['v']}: exact spectrum of input {sc['input']} has frequencies {true_f}, reported {tm['reported']}; program {sig(p)} "
                         f"observable {p['pws'][tm['oi']]} base point {p['base']} (lattice 4pi/{N})", {"program": p, "observable": p["pws"][tm["oi"]]})
         elif nz:
@@ -376,9 +386,11 @@ def run_level(ctx, rng, M, styles, n2d, stats):
                 # reconstruct
                 xarg = pnp.array(xb, requires_grad=True)
                 modes = []
-                if (sc["prog"], oi) in spectra:
-                    modes.append(("spectra", dict(spectra={"x": {(i,): [w for w in spectra[(sc["prog"], oi)][i] if w >= 0]}})))
-                if p["style"] in ("periodic",) or (p["step"][i] == 1 and all(g["g"] not in ENC2_4PI for g in p["ops"] if "enc" in g and i in g["enc"])):
+                supp = supports.get((si, oi))
+                if supp is not None:                               # the exact spectrum of this scan (TLC), as frequencies of x_i
+                    modes.append(("spectra", dict(spectra={"x": {(i,): sorted({0.0} | {k / per2pi for k in supp})}})))
+                periodic = p["step"][i] == 1 and all(g["g"] not in ENC2_4PI for g in p["ops"] if "enc" in g and i in g["enc"])
+                if periodic:
                     modes.append(("nums_frequency", dict(nums_frequency={"x": {(i,): int(p["bound"][i])}})))
                 for name, kw in modes:
                     recs, exc, ws = call(lambda: qp.fourier.reconstruct(q, {"x": [(i,)]}, **kw)(xarg))
@@ -391,9 +403,20 @@ def run_level(ctx, rng, M, styles, n2d, stats):
                         continue
                     fn = recs["x"][(i,)]
                     worst, at = 0.0, None
+                    # Dirichlet-kernel mode: the points x0 + 2 pi k (k != 0) are removable 0/0 singularities of the kernel formula; they are
+                    # judged separately under one key
+                    special = {(p["base"][i] + N // 2) % N} if name == "nums_frequency" else set()
                     for a in range(N):
                         xv = a * p["step"][i] * u
                         e = abs(float(fn(pnp.array(xv))) - exact(sc, oi, a))
+                        if a in special:
+                            ctx.inc("reconstruct_dirichlet_singular_points_evaluated")
+                            if e > TOL_REC:
+                                ctx.violate("reconstruct:nums_frequency:wrong-at-reconstruction-point-plus-2pi",
+                                            f"the Dirichlet-kernel reconstruction evaluated at x0 + 2pi (x_{i} = {a} * 4pi/{N}, x0 = {p['base'][i]} * 4pi/{N}) returns "
+                                            f"{float(fn(pnp.array(xv)))!r}, exact value {exact(sc, oi, a)!r} (error {e:.3g}); {kw}; program {sig(p)} observable {p['pws'][oi]}",
+                                            {"program": p, "observable": p["pws"][oi], "kwargs": str(kw)})
+                            continue
                         if e > worst:
                             worst, at = e, a
                     ctx.inc("reconstruct_points_compared", N)
@@ -471,6 +494,9 @@ def run(tier, seed):
         run_level(ctx, rng, 4, ["unit", "int", "half", "periodic", "periodic", "mix"] * 8, 8, stats)
         run_level(ctx, rng, 5, ["unit", "int", "half", "periodic", "mix"] * 5, 2, stats)
     c = ctx.counts
+    if __import__("os").environ.get("VERIF_DEBUG"):
+        for v in ctx.viol:
+            print("DEBUG", v.key, "|", v.detail[:200])
     if c.get("spectra_validated_by_tlc", 0) < 20 or c.get("coefficient_sets_exact_nontrivial", 0) + len([v for v in ctx.viol if v.key.startswith("coefficients")]) < 10 \
             or c.get("reconstruct_points_compared", 0) < 100 or c.get("circuit_spectrum_calls", 0) < 2:
         raise lib.MachineryError(f"vacuity: {c}")
